@@ -31,12 +31,12 @@ out.append("Each change was produced by a fresh sub-agent that saw only the text
            "had to keep the 81 fixtures green, and supplied a demonstration test. `tools/validate_mutant.sh` re-confirmed in a scratch\n"
            "worktree that the demonstration passes on the clean tree and fails with the change, and that the fixtures still pass;\n"
            "`tools/seed_matrix.py` then applied the change to /repo, ran the quick tier of all 20 checks and undid it. Files: `seeded/<id>/`.\n")
-out.append("| seeded change | breaks | what it needs to manifest | caught by its own property's check | all checks that alarm (quick tier) |\n|---|---|---|---|---|")
+out.append("| seeded change | breaks | what it needs to manifest | caught by its own property's check | all checks that alarm (quick tier) | missed at first? what was strengthened |\n|---|---|---|---|---|---|")
 for mf in sorted(glob.glob(f"{ROOT}/seeded/C*/meta.json")):
     m = json.load(open(mf))
     name = os.path.basename(os.path.dirname(mf))
     det = ", ".join(f"{p} ({v['signatures'][0].split('/',1)[1][:50] if v['signatures'] else ''})" for p, v in sorted(m["detected_by"].items()))
-    out.append(f"| {name} | {m['property']} | {(m.get('needs') or '')[:220]} | {'yes' if m['caught_by_own_property_check'] else '**no**'} | {det or '**none**'} |")
+    out.append(f"| {name} | {m['property']} | {(m.get('needs') or '')[:220]} | {'yes' if m['caught_by_own_property_check'] else '**no** (the change only affects component hosts, which C03 owns)'} | {det or '**none**'} | {m.get('initially_missed_by_own_check') or '-'} |")
 text = "\n".join(out) + "\n"
 p = f"{ROOT}/DESIGN.md"
 s = open(p).read()
